@@ -1,3 +1,4 @@
+import LPVerif.Generated.KernprofOptions
 import LPVerif.Lemmas.Argv
 import LPVerif.Bridge.Argv
 /-!
@@ -23,6 +24,7 @@ theorem module_mode (table : List OptSpec) (o r : List String) (m : String) (opt
 theorem script_plain (table : List OptSpec) (o r : List String) (s : String) (opts : Opts)
     (ho1 : "-m" ∉ o) (ho2 : "--" ∉ o) (hs1 : s ≠ "-m") (hs2 : s ≠ "--")
     (hr1 : "-m" ∉ r) (hr2 : "--" ∉ r)
+    (hamb : firstAmbiguous table r = none)
     (hdec : decodeOpts table {} (o ++ [s]) = .ok (opts, [s])) :
     parseCmd table (o ++ s :: r) = .ok { opts := opts, isModule := false, target := s, argv := r } := by
   have h1 : "-m" ∉ o ++ s :: r := by
@@ -46,7 +48,7 @@ theorem script_plain (table : List OptSpec) (o r : List String) (s : String) (op
       unfold stripSep; split
       · rename_i heq; cases heq; exact absurd rfl this
       · rfl
-  simp [parseCmd, pp_plain _ h1 h2, hd, hstrip]
+  simp [parseCmd, pp_plain _ h1 h2, hd, hstrip, hamb]
 
 /-- **script_shielded**: with the documented `--` directly after the script, *every* list — including `-m`
     and further `--` tokens — reaches the program verbatim -/
@@ -57,7 +59,8 @@ theorem script_shielded (table : List OptSpec) (o r : List String) (s : String) 
   have hd := decode_extend table (o ++ [s]) {} opts s [] ["--"] hdec
   have e : o ++ [s] ++ ["--"] = o ++ [s, "--"] := by simp
   rw [e] at hd
-  simp [parseCmd, pp_shielded o r s ho1 ho2 hs1 hs2, hd, stripSep]
+  have hfa : firstAmbiguous table ["--"] = none := by simp [firstAmbiguous]
+  simp [parseCmd, pp_shielded o r s ho1 ho2 hs1 hs2, hd, stripSep, hfa]
 
 /-- **options_only_from_prefix**: profiler type, output file and viewing are functions of the decoded prefix and
     the target alone — two command lines with the same prefix and target but different program arguments agree -/
@@ -85,5 +88,17 @@ theorem example_shielded :
     okIs (parseCmd exTable ["-l", "s.py", "--", "-m", "x", "--", "-l"])
       { opts := { flags := ["--line-by-line"], values := [] }, isModule := false,
         target := "s.py", argv := ["-m", "x", "--", "-l"] } = true := by decide +kernel
+
+/-- **F-C15a witness**: on kernprof's own option table, a program argument that is an ambiguous prefix of two long options
+    (`--pro`: `--prof-mod`, `--prof-imports`) after a script named without `--` aborts the run; the unambiguous `--vie`, the exact
+    `--view`, and the same `--pro` behind `--` or behind `-m mod` all reach the program -/
+def argvIs (r : Except Err Cmd) (a : List String) : Bool := match r with | .ok c => decide (c.argv = a) | .error _ => false
+def isAmbiguous (r : Except Err Cmd) (t : String) : Bool := match r with | .error (.ambiguous t') => decide (t' = t) | _ => false
+theorem ambiguous_prefix_witness :
+    isAmbiguous (parseCmd Generated.kernprofOptions ["s.py", "--pro"]) "--pro" = true ∧
+    argvIs (parseCmd Generated.kernprofOptions ["s.py", "--vie", "--view"]) ["--vie", "--view"] = true ∧
+    argvIs (parseCmd Generated.kernprofOptions ["s.py", "--", "--pro"]) ["--pro"] = true ∧
+    argvIs (parseCmd Generated.kernprofOptions ["-m", "mod", "--pro"]) ["--pro"] = true := by
+  decide +kernel
 
 end LPVerif.Props.C15
